@@ -18,6 +18,47 @@ CHECKS = {
             "DESIGN.md 3.4, 5/C04"),
 }
 
+CHECKS.update({
+    "C01": ("Grids.tla, QSym.tla, Trace_QSym.tla, Exact.tla, Trace_QNum.tla",
+            "TLC exhaustive model check of the quantizer pipeline on an exact lattice + TLC trace validation (exact big-integer arithmetic) of real executions",
+            "QSym.tla transcribes divide/round/clamp/cast/dequantize one action each; TLC checks NearestGridPoint, SaturatesNotWraps, "
+            "RequantIdempotent on every lattice point (all int8 quarter steps, every float8 grid point / midpoint / neighbour / beyond-range "
+            "point) and emits each case; all cases are executed on quantize_activation / SymmetricQuantizer (3 dtypes, per-tensor and "
+            "per-axis, strided) and TLC validates the recorded codes and dequantized values with zero tolerance. Wide domain: the "
+            "float16/bfloat16 value space (1/16 stratified in quick, complete in thorough), boundary-directed float32 values and per-axis "
+            "scales are validated by Trace_QNum in exact integer arithmetic with the derived rounding tolerance (DESIGN 7.1).",
+            "Trusted: TLC, Python integer/Fraction conversion of bit patterns (harness/exact.py). Tolerance 4u*max(|x|,|s*v|,s)+eta(1+s); "
+            "elements whose grid point overflows the working dtype are excluded and counted.",
+            "DESIGN.md 3.2, 5/C01, 7.1"),
+    "C02": ("QAff.tla, Trace_QAff.tla, Trace_QNum.tla",
+            "TLC model check of MaxOptimizer/AffineQuantizer/dequantize in exact rational arithmetic + lattice replay + wide-domain trace validation",
+            "QAff.tla models reduce / scale+zero-point (int8 wrap) / quantize / dequantize and the group/ungroup index maps; TLC checks "
+            "HalfStepPerGroup, StepBound, ZpFits, RequantIdempotentAffine, UngroupInvertsGroup, GroupIsPerAxis exhaustively over directed groups, "
+            "shows that the pinned design (range without zero) violates the bound, and emits exact lattice groups and grouping maps that are "
+            "assembled into real tensors (ranks 1-4, both axes, group sizes) and validated with zero tolerance; class-directed wide-domain tensors "
+            "(one-sided, offset, constant, zero, mixed...) are validated in exact arithmetic with the derived tolerance.",
+            "Trusted: TLC; harness/exact.py. The element->group map used for the verdict is the abstract one of the property (kept-axis index, "
+            "chunk of group_size); rank-1 tensors are read as one group (DESIGN 9).",
+            "DESIGN.md 3.2, 5/C02, 7.1"),
+    "C03": ("QRange.tla, QAff.tla, Trace_QNum.tla",
+            "TLC model check of the reduction-dimension formulas and locality + trace validation of optimizer calls and metamorphic pairs",
+            "QRange.tla transcribes the reduction dims of AbsmaxOptimizer, MaxOptimizer, absmax_scale/axis_to_dim and quantize_weight's size-1 rule; "
+            "TLC checks OneEntryPerIndex, NonSaturating, FullRange and the two-state Locality property, and emits tensors with distinct per-index ranges "
+            "that are fed to the real optimizers; every optimizer call and every metamorphic pair (others replaced / scaled / rows permuted) is "
+            "validated by TLC in exact arithmetic.",
+            "qmax readings per DESIGN 5/C03 (storage maximum for non-saturation, 2^(bits-1)-1 for full range). Scale entries are matched to rows/groups in the "
+            "order the specification's grouping map defines.",
+            "DESIGN.md 3.2, 5/C03"),
+    "C16": ("QDegen.tla, QAff.tla, Trace_QNum.tla",
+            "TLC model check of the special-value paths (0/0, x/0, overflow) + class-directed trace validation",
+            "QDegen.tla explores the pipeline in an extended-real algebra so the NaN/Inf paths are enumerated by TLC; degenerate row-class mixtures "
+            "(zeros, constant, one-sided, offset, subnormal, near-max, mixed, single, mixed-max) x six qtypes x axis x group size x dtype go through "
+            "quantize_weight and are validated for finiteness and for the C01/C02 bounds; zero-weight Linear/Conv2d layers and calibration on "
+            "zero/constant batches followed by inference are recorded as Finite events.",
+            "Known findings (near-max overflow, zero calibration batch with float8 activations) are matched by input class only; anything else is a violation.",
+            "DESIGN.md 5/C16"),
+})
+
 NOT_YET = {}
 
 PROPS = [json.loads(l) for l in open(os.path.join(ROOT, "properties.jsonl"))]
